@@ -18,7 +18,7 @@
   "`__typename` is selected wherever fragments are applied to an interface or union" needs no
   hypothesis: without it `generate` reports an error (`typename_required`).
 -/
-import ApiFu.C20.LemTop
+import ApiFu.C20.LemTop2
 
 namespace ApiFu.C20
 
@@ -159,8 +159,8 @@ theorem decode_preserves_leaves (S : Schema) (docs : List Doc) (out : Output)
     have hdecls : out.decls = (processDocs S docs {}).2.decls := by rw [← hgen]
     have herr' : (processDocs S docs {}).1 = [] := by simpa using herr
     have hinv0 : EnumInv ({} : St) := by intro n hn; cases hn
-    obtain ⟨_, _, hsem⟩ := processDocs_good hS henv docs {} hdocs herr' hinv0
-    have hall := hsem (by intro d hd; rw [hdecls]; exact hd) doc hdoc
+    obtain ⟨_, _, _, hsem⟩ := processDocs_good hS henv docs {} hdocs herr' hinv0
+    have hall := (hsem (by intro d hd; rw [hdecls]; exact hd)).1 doc hdoc
     have hfragHyp := fragHyp_fragLeaves (S := S) (env := out.decls) (defs := doc.defs) hall fuel
     obtain ⟨r, td, ty, fwd, hr, hlk, hdecl, hlevel⟩ := hall _ hfragHyp _ hop
     rw [hroot] at hr
@@ -181,6 +181,115 @@ theorem decode_preserves_leaves (S : Schema) (docs : List Doc) (out : Output)
       | _ => simp at hL
     | _ => simp at hL
   · cases hgen
+
+/-! ### The output is well-formed (the model-level "compiles") -/
+
+/-- **gen_wf_partial** — for every run over documents inside the envelope that produced output, with
+    enum constants that do not collide (`enumConstsOK`, excludes F-20f) and provided the declared
+    identifiers of the output are pairwise distinct (`hnames`), the output is well-formed
+    (`declsWF`): every identifier a type expression mentions — enum types, `sel…` types, the
+    `<F>Fragment` type of every spread fragment — is declared; in every struct (of every `sel…` type,
+    of every `<Op>Data`/`<F>Fragment` type, at every nesting depth) the field names are exported and
+    pairwise distinct; and every statement of every generated `UnmarshalJSON` unmarshals into a
+    declared field and, when it is a `switch`, switches on a declared field of type `string` (the
+    field `__typename` was selected into, whatever its alias).
+
+    Full statement (DESIGN.md `gen_wf`): the same without `hnames`. What is missing is the proof that
+    `sel<Type><n>`, `<Op>Data`, `<F>Fragment` and enum names never coincide; it needs hypotheses on
+    the names (operation/fragment names distinct, no name beginning with `sel`, no composite type name
+    ending in a digit) — and is false without the last one: finding F-20g (`selNode10`), which the
+    attempt to prove it produced. `hnames` is a decidable check on the output. -/
+theorem gen_wf_partial (S : Schema) (docs : List Doc) (out : Output)
+    (hS : schemaOK S = true) (hec : enumConstsOK S = true)
+    (hgen : generate S docs = .ok out)
+    (hdocs : ∀ d ∈ docs, ∀ df ∈ d.defs, defOK S (fragTypesOf d.defs) df = true)
+    (hnames : nodupB (out.decls.map Decl.name) = true) :
+    declsWF out.decls = true := by
+  have henv : EnvOK out.decls := envOK_of_nodup hnames
+  unfold generate at hgen
+  simp only at hgen
+  split at hgen
+  · rename_i herr
+    injection hgen with hgen
+    have hdecls : out.decls = (processDocs S docs {}).2.decls := by rw [← hgen]
+    have herr' : (processDocs S docs {}).1 = [] := by simpa using herr
+    have hinv0 : EnumInv ({} : St) := by intro n hn; cases hn
+    obtain ⟨_, _, htd, hsem⟩ := processDocs_good hS henv docs {} hdocs herr' hinv0
+    have hstatic := (hsem (by intro d hd; rw [hdecls]; exact hd)).2
+    have hfn : ∀ doc ∈ docs, FragNames (fragTypesOf doc.defs) (out.decls.map Decl.name) := by
+      intro doc hdoc f hf
+      obtain ⟨c, ss, hmem⟩ := fragTypes_any hf
+      have := htd doc hdoc _ hmem
+      rw [hdecls]
+      exact this
+    have hst := hstatic hfn hec (by intro d hd; cases hd)
+    simp only [declsWF, Bool.and_eq_true, hnames, true_and]
+    apply List.all_eq_true.mpr
+    intro d hd
+    rw [hdecls] at hd
+    exact hst d hd
+  · cases hgen
+
+/-- **gen_names_unique** — under the naming assumptions `NamesHyp` (no composite type name ends in a
+    digit; no enum name and no `<Op>Data`/`<F>Fragment` name begins with `sel`; enum names differ
+    from the `…Data`/`…Fragment` names) and with the `…Data`/`…Fragment` names of the run pairwise
+    distinct, every identifier of the output is declared exactly once. The proof needs that
+    `"sel" + typeName + itoa(counter)` is injective in the counter (`sel_name_inj`), which holds
+    exactly because no type name ends in a digit — without that assumption the statement is false
+    (finding F-20g: types `Node` and `Node1` both yield `selNode10`). -/
+theorem gen_names_unique (S : Schema) (docs : List Doc) (out : Output)
+    (hS : schemaOK S = true)
+    (hgen : generate S docs = .ok out)
+    (hdocs : ∀ d ∈ docs, ∀ df ∈ d.defs, defOK S (fragTypesOf d.defs) df = true)
+    (hN : NamesHyp S (docNames docs)) (hnd : (docNames docs).Nodup) :
+    nodupB (out.decls.map Decl.name) = true := by
+  unfold generate at hgen
+  simp only at hgen
+  split at hgen
+  · rename_i herr
+    injection hgen with hgen
+    have hdecls : out.decls = (processDocs S docs {}).2.decls := by rw [← hgen]
+    have herr' : (processDocs S docs {}).1 = [] := by simpa using herr
+    have hinv0 : EnumInv ({} : St) := by intro n hn; cases hn
+    have h0 : NameInv S [] ({} : St) := ⟨List.nodup_nil, fun d hd => (nomatch hd)⟩
+    have := processDocs_names hS hN docs {} [] hdocs herr' hinv0 (by simp) (by simpa using hnd) h0
+    rw [hdecls]
+    exact (nodupB_iff _).mpr this.1
+  · cases hgen
+
+/-- **gen_wf** — the generated declarations are well-formed (the model-level "the output compiles"),
+    for every run over documents inside the envelope under the naming assumptions: every declared
+    identifier is declared exactly once, every referenced identifier is declared, struct fields are
+    exported and pairwise distinct at every depth, and every statement of every generated
+    `UnmarshalJSON` names a declared field and switches on a declared `string` field. -/
+theorem gen_wf (S : Schema) (docs : List Doc) (out : Output)
+    (hS : schemaOK S = true) (hec : enumConstsOK S = true)
+    (hgen : generate S docs = .ok out)
+    (hdocs : ∀ d ∈ docs, ∀ df ∈ d.defs, defOK S (fragTypesOf d.defs) df = true)
+    (hN : NamesHyp S (docNames docs)) (hnd : (docNames docs).Nodup) :
+    declsWF out.decls = true :=
+  gen_wf_partial S docs out hS hec hgen hdocs (gen_names_unique S docs out hS hgen hdocs hN hnd)
+
+/-- **decode_preserves_leaves_of_naming** — `decode_preserves_leaves` with the distinctness of the declared
+    identifiers discharged from the naming assumptions. -/
+theorem decode_preserves_leaves_of_naming (S : Schema) (docs : List Doc) (out : Output)
+    (hS : schemaOK S = true)
+    (hgen : generate S docs = .ok out)
+    (hdocs : ∀ d ∈ docs, ∀ df ∈ d.defs, defOK S (fragTypesOf d.defs) df = true)
+    (hN : NamesHyp S (docNames docs)) (hnd : (docNames docs).Nodup)
+    (doc : Doc) (hdoc : doc ∈ docs) (kind : OpKind) (name : Name) (sels : List Sel)
+    (hop : Def.op kind (some name) sels ∈ doc.defs)
+    (root : Name) (hroot : rootOf S kind = some root)
+    (fuel : Nat) (data : Json) (L : List LeafAt)
+    (hL : opLeaves S (fragDefsOf doc.defs) fuel root sels data = some L)
+    (hkeys : data.keysOK = true) :
+    ∃ v, Decodes out.decls (.named (name ++ n_Data)) data v ∧ ∀ x ∈ L, x ∈ leavesV v :=
+  decode_preserves_leaves S docs out hS hgen hdocs (gen_names_unique S docs out hS hgen hdocs hN hnd)
+    doc hdoc kind name sels hop root hroot fuel data L hL hkeys
+
+/-- The counterexample behind F-20g, in the model: two `sel…` names coincide when one type name is
+    another followed by digits (`Node`, counter 10 and `Node1`, counter 0). -/
+example : n_sel ++ [78, 111, 100, 101] ++ natDigits 10 = n_sel ++ [78, 111, 100, 101, 49] ++ natDigits 0 := by decide
 
 /-! ### Non-vacuity of `decode_preserves_leaves`
 
@@ -224,6 +333,16 @@ example : (doc.defs.all (defOK S (fragTypesOf doc.defs))) = true := by decide
 example : (match generate S [doc] with
     | .ok out => nodupB (out.decls.map Decl.name) && out.decls.length == 3
     | .error _ => false) = true := by decide
+example : enumConstsOK S = true := by decide
+example : (match generate S [doc] with
+    | .ok out => declsWF out.decls
+    | .error _ => false) = true := by decide
+example : (docNames [doc]).Nodup := by decide
+example : NamesHyp S (docNames [doc]) where
+  comp := by decide
+  enumNoSel := by intro nm vs h; simp [S] at h
+  tdNoSel := by decide
+  enumNotTd := by intro nm vs h; simp [S] at h
 example : data.keysOK = true := by decide
 example : opLeaves S (fragDefsOf doc.defs) 1 Q sels data = some expected := by decide
 
